@@ -61,12 +61,17 @@ fn main() {
         Some("check") => {
             let prop = args.get(2).cloned().unwrap_or_default();
             let mut tier = std::env::var("VERIF_TIER").unwrap_or_else(|_| "quick".to_string());
+            let mut only: Option<String> = None;
             let mut i = 3;
             while i < args.len() {
                 if args[i] == "--tier" {
                     if let Some(t) = args.get(i + 1) {
                         tier = t.clone();
                     }
+                    i += 1;
+                } else if args[i] == "--only" {
+                    // development aid: restrict to batches whose name contains the string
+                    only = args.get(i + 1).cloned();
                     i += 1;
                 }
                 i += 1;
@@ -75,7 +80,12 @@ fn main() {
                 tier = "quick".into();
             }
             match checks::get(&prop, &tier) {
-                Some(c) => driver::run_check(&c, &tier, seed),
+                Some(mut c) => {
+                    if let Some(o) = &only {
+                        c.batches.retain(|b| b.name.contains(o.as_str()));
+                    }
+                    driver::run_check(&c, &tier, seed)
+                }
                 None => {
                     stdout_line(&format!("HARNESS-ERROR unknown property {}", prop));
                     2
